@@ -55,6 +55,22 @@ fn run<K: KemT>(name: &str) {
     s.export(b"x", &mut out).unwrap();
     r.export(b"x", &mut out2).unwrap();
     println!("{} alloc contexts export the same {}", name, out == out2);
+    // guard-on builds only: the end of the sequence space through the allocating forms
+    #[cfg(hpke_verif)]
+    {
+        let (_, mut s3) = hpke::setup_sender::<ChaCha20Poly1305, HkdfSha256, K, _>(&OpModeS::Base, &pk_r, b"i", &mut Zero).unwrap();
+        let mut r3 = hpke::setup_receiver::<ChaCha20Poly1305, HkdfSha256, K>(&OpModeR::Base, &sk_r, &enc, b"i").unwrap();
+        s3.verif_set_seq(u64::MAX);
+        r3.verif_set_seq(u64::MAX);
+        let last = s3.seal(b"last", b"").unwrap();
+        let mut ok = r3.open(&last, b"").ok().as_deref() == Some(&b"last"[..]);
+        for l in [0usize, 1, 15, 16, 17, 40] {
+            ok &= matches!(r3.open(&vec![0u8; l], b""), Err(hpke::HpkeError::MessageLimitReached));
+        }
+        ok &= matches!(r3.open(&last, b""), Err(hpke::HpkeError::MessageLimitReached));
+        ok &= matches!(s3.seal(b"x", b""), Err(hpke::HpkeError::MessageLimitReached));
+        println!("{} alloc exhausted contexts refuse every input with MessageLimitReached {}", name, ok);
+    }
 }
 
 fn main() {
